@@ -95,7 +95,7 @@ def examine(ctx, R, g, events, before_tree, op, info, initial_dirty_clear=True):
                         ctx.violation('fs.dirty/flag-restored-in-primary-copy-first',
                                       f'{jsonable_op(op)}: while the clean flag is written back, the primary FAT copy already says '
                                       f'clean and a later copy still says dirty (copies differ in entry 1 only)', dict(info, step=k))
-                    elif pr[0] == 'empty file owns a cluster' and op['op'] in ('truncate', 'write', 'seekwrite', 'append', 'touch'):
+                    elif pr[0] == 'empty file owns a cluster' and op['op'] in ('truncate', 'write', 'seekwrite', 'append', 'touch', 'session'):
                         # by design an open file truncated to zero keeps its first cluster until close(): see known_findings.json
                         ctx.violation('fs.dirty/open-empty-file-keeps-cluster',
                                       f'{jsonable_op(op)}: between truncate-to-zero and close() the (open) target file has size 0 but '
@@ -142,7 +142,7 @@ def run(ctx, build):
         history = []
         try:
             for i in range(30 if ctx.thorough else 22):
-                op = fatops.gen_op(rng, t, g.cs)
+                op = fatops.gen_op(rng, t, g.cs, sessions=True)
                 need = len(op.get('data', b'')) // g.cs + 4 + (op.get('pos', 0) + op.get('size', 0)) // g.cs
                 if t.used_clusters(g.cs) + need > g.n_clusters - 6:
                     continue
